@@ -10,7 +10,7 @@ import numpy as np
 import z3
 from scipy.constants import k as kB, N_A
 
-from symx.core import Engine, SR, noprint, uf_exp
+from symx.core import Engine, SR, noprint, uf_exp, sym_float
 from symx.arr import sarr
 from symx import sparse as sp
 from symx.prove import Prover
@@ -99,7 +99,7 @@ def run_shape(shape):
         return s.get_rate_matrix(SR(Dval), SR(Tt))
 
     def body():
-        with bound(T, coo_array=sp.coo_array, csr_array=sp.csr_array, print=noprint, np=NPProxy()):
+        with bound(T, coo_array=sp.coo_array, csr_array=sp.csr_array, csc_array=sp.csc_array, print=noprint, np=NPProxy(), float=sym_float):
             # another rate matrix of the same process (same pattern and sizes, other numbers) is built first
             from symx.core import rv
             dk = {k: rv(0.5 + 0.25 * (k[0] + k[1])) for k in keys}
